@@ -27,6 +27,11 @@ pub struct Model {
     /// every node / edge id ever handed out (to check that deleted ones appear nowhere)
     pub ever_nodes: BTreeSet<u64>,
     pub ever_edges: BTreeSet<u64>,
+    /// Property values the engine keeps for ids that have no live entity (its property tables
+    /// are keyed by id and never check existence); they resurface when the id is used again.
+    /// Only the persistence checks (C05/C06) populate these.
+    pub orphan_node_props: BTreeMap<u64, BTreeMap<String, Value>>,
+    pub orphan_edge_props: BTreeMap<u64, BTreeMap<String, Value>>,
 }
 
 impl Model {
